@@ -4,6 +4,7 @@ import (
 	"bytes"
 	"encoding/hex"
 	"fmt"
+	"io"
 	"time"
 
 	p9p "github.com/frobnitzem/go-p9p"
@@ -19,7 +20,7 @@ func init() {
 	for _, k := range gen.Kinds {
 		req = append(req, "kind:"+k.String())
 	}
-	req = append(req, "dir_records", "bare_values", "held_encodings_rechecked", "decoded_then_buffer_reused")
+	req = append(req, "dir_records", "bare_values", "held_encodings_rechecked", "decoded_then_buffer_reused", "message_type_methods_checked", "decodedir_from_short_reads")
 	register(&mon.Spec{
 		ID:    "C01",
 		Level: "exploration",
@@ -129,6 +130,14 @@ func runC01(w *mon.W) {
 }
 
 func checkFcallC01(w *mon.W, codec p9p.Codec, fc *p9p.Fcall) {
+	// the type a message value reports for itself is the one the manual assigns to its kind
+	// (newFcall and the server's replies take the wire type from it)
+	if want, err := refcodec.TypeOf(fc.Message); err == nil {
+		w.Count("message_type_methods_checked", 1)
+		if got := uint8(fc.Message.Type()); got != want {
+			w.Violate("mismatch", "C01:message-type-method", fmt.Sprintf("%T.Type() = %d, the manual numbers this message %d", fc.Message, got, want), nil)
+		}
+	}
 	kind := fc.Type.String()
 	ref, err := refcodec.Encode(fc)
 	if err != nil {
@@ -222,6 +231,16 @@ func checkDirC01(w *mon.W, codec p9p.Codec, d p9p.Dir) {
 	} else if !refcodec.EqDir(back, d) {
 		w.Violate("mismatch", "C01:decodedir", fmt.Sprintf("DecodeDir = %v, want %v", back, d), nil)
 	}
+	// the same record arriving in pieces (a socket, a pipe, a small buffered reader)
+	for _, piece := range []int{1, 3, 16} {
+		var back2 p9p.Dir
+		if err := p9p.DecodeDir(codec, &pieceReader{b: ref, n: piece}, &back2); err != nil {
+			w.Violate("mismatch", "C01:decodedir-error:pieces", fmt.Sprintf("DecodeDir of a valid stat record delivered %d byte(s) per read failed: %v (%s)", piece, err, hexHead(ref)), nil)
+		} else if !refcodec.EqDir(back2, d) {
+			w.Violate("mismatch", "C01:decodedir:pieces", fmt.Sprintf("DecodeDir from a reader that delivers %d byte(s) per read = %v, want %v", piece, back2, d), nil)
+		}
+		w.Count("decodedir_from_short_reads", 1)
+	}
 	// several records back to back ([]Dir encoding used by directory reads)
 	if len(ref) < 2000 {
 		d2 := d
@@ -284,4 +303,26 @@ func checkBareC01(w *mon.W, codec p9p.Codec, g *gen.G) {
 	if codec.Size(ss) != len(wantS) {
 		w.Violate("mismatch", "C01:strings-size", fmt.Sprintf("Size([]string)=%d want %d", codec.Size(ss), len(wantS)), nil)
 	}
+}
+
+// pieceReader delivers at most n bytes per Read.
+type pieceReader struct {
+	b []byte
+	n int
+}
+
+func (r *pieceReader) Read(p []byte) (int, error) {
+	if len(r.b) == 0 {
+		return 0, io.EOF
+	}
+	k := r.n
+	if k > len(p) {
+		k = len(p)
+	}
+	if k > len(r.b) {
+		k = len(r.b)
+	}
+	copy(p, r.b[:k])
+	r.b = r.b[k:]
+	return k, nil
 }
